@@ -26,4 +26,30 @@ for loc in locs:
         bad = [x for x in got if x not in exp] + [x for x in exp if x not in got]
         verdict(True, "sections selected for a location are not exactly the component-wise matches with their unmatched tail",
                 input=loc, observed=str(bad[:4]))
+# the matcher: most specific section first, ties between equally deep sections broken by section id (not by file order); ignore_parents stops
+import os, tempfile, shutil
+home = tempfile.mkdtemp(prefix="c49_")
+try:
+    os.environ["BRZ_HOME"] = home
+    from breezy import bedding
+    conf = os.path.join(bedding.config_dir(), "locations.conf")
+    os.makedirs(os.path.dirname(conf), exist_ok=True)
+    for order in (["/srv/proj/*", "/srv/proj/trunk", "/srv"], ["/srv/proj/trunk", "/srv/proj/*", "/srv"], ["/srv", "/srv/proj/*", "/srv/proj/trunk"]):
+        tried += 1
+        with open(conf, "w") as f:
+            for sec in order:
+                f.write("[%s]\nopt = from %s\n" % (sec, sec))
+        config._shared_stores.clear()
+        got = config.LocationStack("/srv/proj/trunk").get("opt")
+        if got != "from /srv/proj/trunk":
+            verdict(True, "the value does not come from the most specific section when an equally deep glob section is written first",
+                    input=str(order), observed=repr(got), expected="from /srv/proj/trunk")
+    with open(conf, "w") as f:
+        f.write("[/srv]\nopt = generic\nother = generic\n[/srv/proj]\nignore_parents = true\nopt2 = x\n")
+    config._shared_stores.clear()
+    tried += 1
+    if config.LocationStack("/srv/proj/trunk").get("other") is not None:
+        verdict(True, "ignore_parents did not stop the search at the section that sets it")
+finally:
+    shutil.rmtree(home, ignore_errors=True)
 verdict(False, "no failing input among %d" % tried)
